@@ -41,6 +41,10 @@ func (f *VerifFSM) Data() *Data {
 	return f.s.data
 }
 
+// SnapshotData calls (*store).snapshot, the accessor the service's handlers
+// read the metadata through.
+func (f *VerifFSM) SnapshotData() (*Data, error) { return f.s.snapshot() }
+
 // VerifValidateCommand calls validateCommand (the check the execute endpoint
 // applies before proposing a request body to raft).
 func VerifValidateCommand(b []byte) error { return validateCommand(b) }
